@@ -14,10 +14,13 @@
 package jws
 
 import (
+	"bytes"
 	"crypto/x509"
 	"encoding/base64"
 	"encoding/json"
+	"errors"
 	"fmt"
+	"io"
 
 	"github.com/golang-jwt/jwt/v4"
 	"github.com/notaryproject/notation-core-go/internal/timestamp"
@@ -75,8 +78,8 @@ func (e *envelope) Sign(req *signature.SignRequest) ([]byte, error) {
 
 	// parse payload as jwt.MapClaims
 	// [jwt-go]: https://pkg.go.dev/github.com/dgrijalva/jwt-go#MapClaims
-	var payload jwt.MapClaims
-	if err = json.Unmarshal(req.Payload.Content, &payload); err != nil {
+	payload, err := parsePayload(req.Payload.Content)
+	if err != nil {
 		return nil, &signature.InvalidSignRequestError{
 			Msg: fmt.Sprintf("payload format error: %v", err.Error())}
 	}
@@ -108,6 +111,22 @@ func (e *envelope) Sign(req *signature.SignRequest) ([]byte, error) {
 }
 
 // Verify verifies the envelope and returns its enclosed payload and signer info.
+// parsePayload decodes the payload to be signed as JWT claims. Numbers are kept
+// as they are written, since decoding them to float64 would silently change
+// integers beyond 2^53 in the signed payload.
+func parsePayload(content []byte) (jwt.MapClaims, error) {
+	var payload jwt.MapClaims
+	decoder := json.NewDecoder(bytes.NewReader(content))
+	decoder.UseNumber()
+	if err := decoder.Decode(&payload); err != nil {
+		return nil, err
+	}
+	if _, err := decoder.Token(); err != io.EOF {
+		return nil, errors.New("invalid character after top-level value")
+	}
+	return payload, nil
+}
+
 func (e *envelope) Verify() (*signature.EnvelopeContent, error) {
 	if e.base == nil {
 		return nil, &signature.SignatureEnvelopeNotFoundError{}
